@@ -221,20 +221,31 @@ class Executor:
         return res
 
     # ------------------------------------------------------------------ function entry
-    def run_body(self, body, args, st=None):
+    def run_body(self, body, args, st=None, gargs=None):
         """Execute a HIR body with parameter terms `args`. Returns list of (st, outcome) where the
-        outcome is ('val', t) for normal/explicit return, or ('panic', why)."""
+        outcome is ('val', t) for normal/explicit return, or ('panic', why).
+        gargs: the call's generic arguments (strings, substitution order) — binds const generics."""
         st = st or State()
         saved_env = st.env
         st.env = {}
         self.bind_params(body["params"], args, st)
         self.call_depth += 1
         self.stack.append(body["path"])
+        if not hasattr(self, "genv"):
+            self.genv = [{}]
+        names = body.get("generics") or []
+        cur = self.genv[-1]
+        g = {}
+        if gargs and len(gargs) == len(names):
+            for nme, val in zip(names, gargs):
+                g[nme] = cur.get(val, val)      # a generic argument that is itself a parameter of the caller
+        self.genv.append(g)
         try:
             res = self.ev(body["value"], st)
         finally:
             self.call_depth -= 1
             self.stack.pop()
+            self.genv.pop()
         out = []
         for s, o in res:
             s.env = saved_env if s is st else dict(saved_env)
@@ -449,7 +460,12 @@ class Executor:
         return self.bind(self.ev_list(n["elems"], st), lambda s, vs: [(s, ("val", app("array", *vs)))])
 
     def ev_Repeat(self, n, st):
-        return self.bind(self.ev(n["e"], st), lambda s, v: [(s, ("val", app("repeat_array", v, lit(self.fx.ty(n)))))])
+        ty = self.fx.ty(n) or ""
+        import re as _re
+        for nme, val in (getattr(self, "genv", [{}])[-1] or {}).items():
+            if _re.fullmatch(r"\d+", str(val)):
+                ty = _re.sub(r"\b%s\b" % _re.escape(nme), str(val), ty)
+        return self.bind(self.ev(n["e"], st), lambda s, v: [(s, ("val", app("repeat_array", v, lit(ty))))])
 
     def ev_Struct(self, n, st):
         r = n["res"]
@@ -834,34 +850,122 @@ class Executor:
         return self.bind(self.ev(iter_expr, st), k)
 
     def run_loop(self, st, kind, loop_id, itv, pat, body, node, closure=None):
-        """One symbolic iteration. Records a `foreach` effect holding the body's paths."""
+        """One symbolic iteration. Records a `foreach` effect holding the body's paths.
+        A sequence of known elements is executed element by element instead; `a.chain(b)` runs as two loops."""
+        if itv[0] == "iter" and itv[3] and all(isinstance(f, tuple) and f and f[0] == "chain" for f in itv[3]) and itv[2] == "fwd":
+            parts = [("iter", itv[1], "fwd", ())] + [self.as_iter(f[1]) for f in itv[3]]
+            outs = [(st, ("val", UNIT))]
+            last_e = None
+            for pi, part in enumerate(parts):
+                nxt = []
+                for s, o in outs:
+                    if o != ("val", UNIT):
+                        nxt.append((s, o))
+                        continue
+                    r, last_e = self.run_loop(s, kind, loop_id * 10 + pi, part, pat, body, node, closure)
+                    nxt.extend(r)
+                outs = nxt
+            return outs, last_e
+        if itv[0] == "iter" and not itv[3]:
+            from .stdmodels import _concrete_elems
+            elems = _concrete_elems(itv[1])
+            if elems is not None and len(elems) <= 8:
+                elems = list(elems) if itv[2] == "fwd" else list(reversed(elems))
+                live = [st]
+                outs = []
+                for el in elems:
+                    nxt = []
+                    for s in live:
+                        if closure is None:
+                            self.match_pat(pat, el, s)
+                            res = self.ev(body, s)
+                        else:
+                            res = self.apply_closure(closure, (el,), s)
+                        for s2, o in res:
+                            if o[0] in ("val", "cont"):
+                                if closure is not None and o[0] == "val" and kind == "try_for_each":
+                                    v = o[1]
+                                    if v[0] == "err":
+                                        outs.append((s2, ("stop", v)))
+                                        continue
+                                    if v[0] == "fall":
+                                        s_err = s2.fork()
+                                        self.effect(s2, "assume_ok", (v,), node=node)
+                                        self.effect(s_err, "assume_fail", (v,), node=node)
+                                        outs.append((s_err, ("stop", ("err", ("errof", v)))))
+                                nxt.append(s2)
+                            elif o[0] == "brk" and o[1] == loop_id:
+                                outs.append((s2, ("val", UNIT)))
+                            else:
+                                outs.append((s2, o))
+                    live = nxt
+                return [(s, ("val", UNIT)) for s in live] + outs, None
         lid_names = self.assigned_locals(body) if body is not None else set()
         body_st = State(dict(st.env), [], dict(st.fields), dict(st.facts))
         for lid, name in lid_names:
             if lid in body_st.env:
                 body_st.env[lid] = ("sym", next(self.counter), "loopvar:" + name)
+        body_st_env0 = dict(body_st.env)
         elem = ("sym", next(self.counter), "elem")
         if closure is None:
             self.match_pat(pat, self.elem_term(itv, elem), body_st)
             res = self.ev(body, body_st)
         else:
             res = self.apply_closure(closure, (self.elem_term(itv, elem),), body_st)
+            if kind == "try_for_each":
+                # the closure's Result decides: Err stops the traversal and becomes the value of try_for_each
+                res2 = []
+                for s, o in res:
+                    if o[0] == "val" and o[1][0] == "err":
+                        res2.append((s, ("stop", o[1])))
+                    elif o[0] == "val" and o[1][0] == "fall":
+                        s_err = s.fork()
+                        self.effect(s, "assume_ok", (o[1],), node=node)
+                        self.effect(s_err, "assume_fail", (o[1],), node=node)
+                        res2.append((s, ("val", UNIT)))
+                        res2.append((s_err, ("stop", ("err", ("errof", o[1])))))
+                    else:
+                        res2.append((s, o))
+                res = res2
         paths = []
         exits = []
         results = []
+        finals = []
         for s, o in res:
             p = {"eff": s.eff, "out": o}
             if o[0] in ("val", "cont") or (o[0] == "brk" and o[1] == loop_id):
                 paths.append(p)
+                finals.append((s, o))
                 if o[0] == "val":
                     results.append(o[1])
             else:
                 exits.append(p)
-        e = self.effect(st, kind, (itv,), node=node, loop=loop_id, elem=elem, paths=paths, exits=exits, results=results)
-        # after the loop, loop-assigned locals are unknown
+        e = self.effect(st, "foreach" if kind == "try_for_each" else kind, (itv,), node=node, loop=loop_id, elem=elem, paths=paths, exits=exits, results=results)
+        unfiltered = itv[0] == "iter" and not any(isinstance(f, tuple) and f and f[0] in ("filter", "take_while", "skip_while", "filter_map", "flat_map", "take", "skip", "step_by") for f in itv[3])
+        every_iteration = unfiltered and all(o[0] == "val" for _, o in finals) and bool(finals)
+        # after the loop, loop-assigned locals are unknown — except counters: x = x + c on every iteration
+        lv_of = {}
+        for lid, name in lid_names:
+            if lid in body_st_env0:
+                lv_of[lid] = body_st_env0[lid]
         for lid, name in lid_names:
             if lid in st.env:
-                st.env[lid] = ("sym", next(self.counter), "after_loop:" + name)
+                after = ("sym", next(self.counter), "after_loop:" + name)
+                if every_iteration and lid in lv_of:
+                    steps = {s.env.get(lid) for s, _ in finals}
+                    lv = lv_of[lid]
+                    if len(steps) == 1:
+                        stp = next(iter(steps))
+                        if stp == lv:
+                            after = st.env[lid]
+                        elif stp in (("app", "add", (lv, lit(1))), ("app", "add", (lit(1), lv))):
+                            from .stdmodels import tlen
+                            n_it = tlen(itv)
+                            after = n_it if st.env[lid] == lit(0) else ("app", "add", (st.env[lid], n_it))
+                st.env[lid] = after
+        # a loop that pushes exactly one value per iteration onto a vector that was empty is a `map(..).collect()`
+        if every_iteration and closure is None:
+            self._push_loop_as_collect(st, e, paths, loop_id)
         outs = [(st, ("val", UNIT))]
         # abnormal exits (return / panic from inside the loop) continue as separate paths
         for p in exits:
@@ -870,6 +974,37 @@ class Executor:
             s2.eff.extend(p["eff"])
             outs.append((s2, p["out"]))
         return outs, e
+
+    def _push_loop_as_collect(self, st, e, paths, loop_id):
+        def is_push(x):
+            return x["k"] == "call" and x["args"][0][1].endswith("::push") and len(x["args"]) == 3 and x["args"][1][0] == "obj" and x["args"][1][1] == "Vec"
+        cands = {x["args"][1] for p in paths for x in p["eff"] if is_push(x)}
+        if len(cands) != 1:
+            return
+        obj = next(iter(cands))
+        results = []
+        for p in paths:
+            pushes = [x for x in p["eff"] if is_push(x) and x["args"][1] == obj]
+            others = [x for x in p["eff"] if x["k"] == "call" and not is_push(x) and len(x["args"]) > 1 and x["args"][1] == obj]
+            nested = [x for x in p["eff"] if x["k"] in ("foreach", "loop") and _mentions_term(x, obj)]
+            if len(pushes) != 1 or others or nested:
+                return
+            results.append(pushes[0]["args"][2])
+        if any(x["k"] == "call" and len(x["args"]) > 1 and x["args"][1] == obj for x in st.eff[:-1]):
+            return      # not empty when the loop starts
+        e["results"] = results
+        e["driver"] = "collect"
+        e["pipeline"] = ("map",)
+        e["elem_fail"] = []
+        e["filtered"] = False
+        e["pushes_into"] = obj
+        self.loops = getattr(self, "loops", {})
+        self.loops[loop_id] = e
+        coll = app("collected", lit(loop_id))
+        for k2 in list(st.env):
+            st.env[k2] = _subst_term(st.env[k2], obj, coll)
+        for k2 in list(st.fields):
+            st.fields[k2] = _subst_term(st.fields[k2], obj, coll)
 
     def elem_term(self, itv, elem):
         flags = itv[3] if itv[0] == "iter" else ()
@@ -987,7 +1122,7 @@ class Executor:
             if self.call_depth >= self.client.inline_depth or self.stack.count(body["path"]) >= 2:
                 self.effect(st, "call", (lit(path),) + tuple(allargs), result=None, node=node, reason="inline bound")
                 return [(st, ("val", self.fresh("ret:" + path.rsplit("::", 1)[-1])))]
-            return self.run_body(body, allargs, st)
+            return self.run_body(body, allargs, st, gargs=(cal or {}).get("gargs"))
         # 5. unmodelled external call: recorded as an effect; fallible when the type says so
         self.unmodelled[path] = self.unmodelled.get(path, 0) + 1
         from .stdmodels import is_result_ty
@@ -1018,6 +1153,24 @@ class Executor:
             self.effect(st, kind, spec.get("args", ()), result=r, node=node, **spec.get("extra", {}))
             return [(st, ("val", r))]
         raise Unsupported("tracked result kind " + res_kind)
+
+
+def _subst_term(t, a, b):
+    if t == a:
+        return b
+    if isinstance(t, tuple):
+        return tuple(_subst_term(x, a, b) if isinstance(x, tuple) else x for x in t)
+    return t
+
+
+def _mentions_term(x, obj):
+    if x == obj:
+        return True
+    if isinstance(x, dict):
+        return any(_mentions_term(v, obj) for v in x.values())
+    if isinstance(x, (tuple, list)):
+        return any(_mentions_term(v, obj) for v in x)
+    return False
 
 
 def paths_of(ex, body, args):
